@@ -249,6 +249,13 @@ class Dap:
             return None
         return self.seq
 
+    def send_raw(self, obj):
+        self._rec("out", obj)
+        try:
+            self.sock.sendall(_frame(obj))
+        except OSError:
+            pass
+
     def pump(self, until, timeout):
         """Read messages (all are logged) until until(msg) is true; returns that message or None on timeout/eof."""
         end = time.time() + timeout
@@ -318,13 +325,15 @@ class ScriptSession:
     pause/wait only while it believes the machine runs, continue/step/inspect only after a stopped event;
     after `continue` it waits for the `continued` event, after a step for the response and then a stopped event."""
 
-    def __init__(self, port, workspace, source_path, test_name="t", timeout=4.0):
+    def __init__(self, port, workspace, source_path, test_name="t", timeout=4.0, lines_default=False):
+        self.lines_default = lines_default       # initialize without linesStartAt1/columnsStartAt1 (the protocol's default is true)
         self.dap = Dap(port)
         self.ws, self.src, self.test, self.timeout = workspace, source_path, test_name, timeout
         self.view = "init"
         self.failed = None
         self.cur = 0
         self.probe_seqs = set()
+        self.alive_marks = []
 
     def _find(self, names, start):
         for k in range(start, len(self.dap.log)):
@@ -354,15 +363,25 @@ class ScriptSession:
                 self.cur = k + 1
                 self.after_stop_or_end(self.dap.log[k]["msg"], gap)
 
-    def set_bps(self, lines):
-        r = self.dap.request("setBreakpoints", {"source": {"path": self.src}, "breakpoints": [{"line": l} for l in lines]}, self.timeout)
-        if not r or not r.get("success"):
-            self.failed = "setBreakpoints failed"
+    def set_bps(self, lines, lib=None):
+        """lines >= 1000 belong to the second source file (lib.asm next to the entry): one request per file.
+        An empty list addresses the entry file unless lib is True."""
+        groups = {}
+        for l in lines:
+            groups.setdefault(l >= 1000, []).append(l % 1000)
+        if not groups:
+            groups[bool(lib)] = []
+        for is_lib, ls in sorted(groups.items()):
+            path = os.path.join(os.path.dirname(self.src), "lib.asm") if is_lib else self.src
+            r = self.dap.request("setBreakpoints", {"source": {"path": path}, "breakpoints": [{"line": l} for l in ls]}, self.timeout)
+            if not r or not r.get("success"):
+                self.failed = "setBreakpoints failed"
 
     def snapshots(self, gap):
         for i in range(2):
             self.dap.request("stackTrace", {"threadId": 1}, self.timeout)
             self.dap.request("variables", {"variablesReference": 1}, self.timeout)
+            self.dap.request("evaluate", {"expression": "*"}, self.timeout)
             self.dap.request("evaluate", {"expression": EVAL_EXPR}, self.timeout)
             if i == 0 and gap > 0:
                 time.sleep(gap)
@@ -379,7 +398,8 @@ class ScriptSession:
 
     def run(self, bps0, steps):
         d = self.dap
-        ok = (d.request("initialize", {"adapterID": "mos", "linesStartAt1": True, "columnsStartAt1": True}, self.timeout) or {}).get("success")
+        init = {"adapterID": "mos"} if self.lines_default else {"adapterID": "mos", "linesStartAt1": True, "columnsStartAt1": True}
+        ok = (d.request("initialize", init, self.timeout) or {}).get("success")
         ok = ok and (d.request("launch", {"workspace": self.ws, "testRunner": {"testCaseName": self.test}}, self.timeout) or {}).get("success")
         if not ok:
             self.failed = "initialize/launch failed"
@@ -423,6 +443,27 @@ class ScriptSession:
                 self.after_stop_or_end(self._ev(("stopped", "terminated"), mark), gap)
             elif self.view == "stopped" and a == "inspect":
                 self.snapshots(gap)
+            elif self.view == "stopped" and a.startswith("malformed:"):
+                # a request outside the happy path, then a plain one: is the adapter still there?
+                kind = a.split(":", 1)[1]
+                if kind == "unknown_command":
+                    d.request("frobnicate", {}, 1.5)
+                elif kind == "variables_reference":
+                    d.request("variables", {"variablesReference": 99}, 1.5)
+                elif kind == "setbps_no_path":
+                    d.request("setBreakpoints", {"source": {"name": "main.asm"}, "breakpoints": [{"line": 3}]}, 1.5)
+                elif kind == "setbps_line0":
+                    d.request("setBreakpoints", {"source": {"path": self.src}, "breakpoints": [{"line": 0}]}, 1.5)
+                    d.request("setBreakpoints", {"source": {"path": self.src}, "breakpoints": []}, 1.5)
+                elif kind == "completions_end":
+                    d.request("completions", {"text": "cpu.", "column": 5}, 1.5)
+                elif kind == "event_message":
+                    d.send_raw({"seq": 99, "type": "event", "event": "initialized"})
+                    time.sleep(0.1)
+                self.alive_marks.append((len(d.log), kind))
+                if d.request("threads", None, 1.5) is None:
+                    self.view = "lost"
+                    break
             elif self.view == "stopped" and a == "evalmem":
                 # memory reads outside the program image, up to the very end of the address space
                 for e in ("ram($fff0)", "ram16($fffe)", "ram16($ffff)"):
@@ -437,23 +478,32 @@ class ScriptSession:
         d.close()
 
 
-def observations(log, probe_seqs=()):
+def observations(log, probe_seqs=(), alive_marks=()):
     """Reshape a Dap.log into the observation rows DebuggerTrace.tla reads (stream order, no judging).
     probe_seqs: request numbers of `variables` requests sent while the machine was believed to run."""
-    out, reqs, frame, regs, memreq = [], {}, None, None, {}
+    out, reqs, frame, regs, memreq, star = [], {}, None, None, {}, -1
+    alive = {k: kind for k, kind in alive_marks}          # log index of the `threads` request that follows a malformed request
+    pending_alive = {}
 
     def num(s):
         try:
             return int(str(s), 0) if not str(s).startswith("$") else int(str(s)[1:], 16)
         except ValueError:
             return -1
-    for row in log:
+    for idx, row in enumerate(log):
         m = row["msg"]
+        if row["dir"] == "out" and m.get("type") != "request":
+            continue
         if row["dir"] == "out":
             reqs[m["seq"]] = m
             c = m["command"]
-            if c == "setBreakpoints":
-                out.append({"k": "setbps", "lines": [b["line"] for b in m["arguments"]["breakpoints"]]})
+            if idx in alive:
+                o = {"k": "alive", "after": alive[idx], "answered": False}
+                pending_alive[m["seq"]] = o
+                out.append(o)
+            if c == "setBreakpoints" and (m["arguments"].get("source") or {}).get("path") and all(b.get("line", 0) > 0 for b in m["arguments"]["breakpoints"]):
+                lib = m["arguments"]["source"]["path"].endswith("lib.asm")
+                out.append({"k": "setbps", "file": 1 if lib else 0, "lines": [b["line"] + (1000 if lib else 0) for b in m["arguments"]["breakpoints"]]})
             elif c == "configurationDone":
                 out.append({"k": "launch"})
             elif c in ("continue", "pause") + STEP_CMDS:
@@ -469,9 +519,12 @@ def observations(log, probe_seqs=()):
                 out.append({"k": "ev", "e": m["event"], "reason": (m.get("body") or {}).get("reason", "")})
         elif m.get("type") == "response":
             c = m.get("command")
+            if m.get("request_seq") in pending_alive:
+                pending_alive[m["request_seq"]]["answered"] = True
             if c == "stackTrace":
                 fr = ((m.get("body") or {}).get("stackFrames") or []) if m.get("success") else []
-                frame = {"hasFrame": bool(fr), "line": fr[0]["line"] if fr else 0, "endLine": fr[0].get("endLine", 0) if fr else 0}
+                lib = bool(fr) and str(((fr[0].get("source") or {}).get("path")) or "").endswith("lib.asm")
+                frame = {"hasFrame": bool(fr), "line": (fr[0]["line"] + (1000 if lib else 0)) if fr else 0, "endLine": fr[0].get("endLine", 0) if fr else 0}
             elif c == "variables":
                 vs = {v["name"]: num(v["value"]) for v in ((m.get("body") or {}).get("variables") or [])} if m.get("success") else {}
                 regs = {"a": vs.get("A", -1), "x": vs.get("X", -1), "y": vs.get("Y", -1), "cyc": vs.get("CYC", -1)}
@@ -483,10 +536,12 @@ def observations(log, probe_seqs=()):
             elif c == "evaluate" and m.get("request_seq") in memreq:
                 memreq[m["request_seq"]].update({"answered": True, "ok": bool(m.get("success")),
                                                  "val": num((m.get("body") or {}).get("result", "")) if m.get("success") else -1})
+            elif c == "evaluate" and (reqs.get(m.get("request_seq")) or {}).get("arguments", {}).get("expression") == "*":
+                star = num((m.get("body") or {}).get("result", "")) if m.get("success") else -1
             elif c == "evaluate":
                 ev = num((m.get("body") or {}).get("result", "")) if m.get("success") else -1
                 if frame is not None and regs is not None:
-                    o = {"k": "snap", "ev": ev}
+                    o = {"k": "snap", "ev": ev, "star": star}
                     o.update(frame)
                     o.update(regs)
                     out.append(o)
